@@ -600,6 +600,37 @@ theorem fixed_step_disciplined (mx : Nat) (a : Arr) (L : Log) (vs : List Elt) (o
           (by simp [spec, Ref.value, List.getD_eq_getElem?_getD, hj.2]) hj.2
     | _ => simp [copySlot] at hcs
 
+/-- legality along a run of the repaired algorithm (no condition on the value arguments) -/
+def okRunFixed (mx : Nat) (a : Arr) (L : Log) : List Op → Prop
+  | [] => True
+  | op :: ops => legal mx a op = true ∧ okRunFixed mx (stepFixed mx a L op).arr (stepFixed mx a L op).log ops
+
+/-- **run_fixed_disciplined.** The repaired `Array_` over arbitrary *legal* operation sequences —
+element arguments allowed everywhere: no violation, well-formedness, live objects = size. -/
+theorem run_fixed_disciplined (mx : Nat) : ∀ (ops : List Op) (a : Arr) (L : Log), WF a → okRunFixed mx a L ops →
+    (runFixed mx a L ops).2.viol = L.viol ∧ WF (runFixed mx a L ops).1 ∧
+    (runFixed mx a L ops).2.ctor + a.size + L.dtor = (runFixed mx a L ops).2.dtor + (runFixed mx a L ops).1.size + L.ctor := by
+  intro ops
+  induction ops with
+  | nil => intro a L hwf _; exact ⟨rfl, hwf, by simp [runFixed]; omega⟩
+  | cons op ops ih =>
+    intro a L hwf hok
+    obtain ⟨hl, hrest⟩ := hok
+    obtain ⟨vs, hv⟩ := hwf
+    obtain ⟨s1, s2, s3, s4⟩ := fixed_step_disciplined mx a L vs op hv hl
+    have hwf' : WF (stepFixed mx a L op).arr := by
+      cases ht : (stepFixed mx a L op).thrown with
+      | false => exact ⟨_, s2 ht⟩
+      | true => rw [s3 ht]; exact ⟨vs, hv⟩
+    obtain ⟨i1, i2, i3⟩ := ih (stepFixed mx a L op).arr (stepFixed mx a L op).log hwf' hrest
+    show (runFixed mx (stepFixed mx a L op).arr (stepFixed mx a L op).log ops).2.viol = _ ∧
+      WF (runFixed mx (stepFixed mx a L op).arr (stepFixed mx a L op).log ops).1 ∧ _
+    refine ⟨by rw [i1, s1], i2, ?_⟩
+    show (runFixed mx (stepFixed mx a L op).arr (stepFixed mx a L op).log ops).2.ctor + a.size + L.dtor
+      = (runFixed mx (stepFixed mx a L op).arr (stepFixed mx a L op).log ops).2.dtor
+        + (runFixed mx (stepFixed mx a L op).arr (stepFixed mx a L op).log ops).1.size + L.ctor
+    omega
+
 /-- the repaired algorithm handles the witnesses of F3 like `std::vector` -/
 example : abs (stepFixed 1000 full4 {} (.pushBack (.slot 0))).arr = [10, 20, 30, 40, 10] ∧
     (stepFixed 1000 full4 {} (.pushBack (.slot 0))).log.viol = 0 ∧
